@@ -28,7 +28,7 @@ expression is modelled: the token is absent).  The parse tree is reduced to a br
 Every function returns its result together with a proof that the remaining stream is not heavier than the one
 it was given (`Res`); that is what lets Lean accept the loops **without fuel**: a loop continues on the tail of
 what the dispatched tag parser left, which is strictly lighter than what the iteration started with.
-`iters` (ghost) counts the iterations of all loops.
+`iters` (ghost) counts the completed iterations of all loops (a pass that raises ends the loop and is not counted).
 -/
 namespace LiquidVerif.ParseLoops
 
@@ -67,6 +67,8 @@ theorem Tok.weight_pos (t : Tok) : 1 ≤ t.weight := by
   cases t <;> simp [Tok.weight] <;> omega
 
 theorem wl_cons (t : Tok) (ts : List Tok) : wl (t :: ts) = t.weight + wl ts := by simp [wl]
+
+theorem wl_le_cons (t : Tok) (r : List Tok) : wl r ≤ wl (t :: r) := by simp only [wl_cons]; omega
 
 theorem wl_tail_le (ts : List Tok) : wl ts.tail ≤ wl ts := by
   cases ts with
@@ -184,7 +186,7 @@ def blockLoop (cfg : Cfg) (ends : List String) (d : Nat) (ts : List Tok) : Res t
     match getNode cfg d t r with
     | ⟨g, hg⟩ =>
       match g.err with
-      | some _ => ⟨{ g with iters := g.iters + 1 }, hg⟩         -- STRICT: `env.error` re-raises
+      | some _ => ⟨g, hg⟩                                       -- STRICT: `env.error` re-raises (a pass that raises is not counted)
       | none =>
         match blockLoop cfg ends g.depth g.rest.tail with        -- `next(stream)`
         | ⟨l, hl⟩ =>
@@ -207,41 +209,40 @@ decreasing_by parse_dec
 
 /-- `tags.get(…).get_node(stream)` for the current token `t` (the stream is `t :: r`) -/
 def getNode (cfg : Cfg) (d : Nat) (t : Tok) (r : List Tok) : Res (t :: r) :=
-  have hr : wl r ≤ wl (t :: r) := by simp only [wl_cons]; omega
   match t with
   | .output =>
     -- `Output.parse`: eat OUTPUT, expect EXPRESSION
-    if headIsExpr r then ⟨ok ["output"] r d 0, hr⟩
-    else recover cfg none ⟨failed .syntax r d 0, hr⟩ "output"
+    if headIsExpr r then ⟨ok ["output"] r d 0, (wl_le_cons _ _)⟩
+    else recover cfg none ⟨failed .syntax r d 0, (wl_le_cons _ _)⟩ "output"
   | .doc => ⟨ok ["doc"] (.doc :: r) d 0, Nat.le_refl _⟩
   | .comment => ⟨ok ["comment"] (.comment :: r) d 0, Nat.le_refl _⟩
   | .content => ⟨ok ["content"] (.content :: r) d 0, Nat.le_refl _⟩
   | .expr inner => recover cfg none ⟨failed .syntax (.expr inner :: r) d 0, Nat.le_refl _⟩ "content"
   | .tag n =>
-    if n == "if" then recover cfg (some "endif") ((parseIf cfg "endif" d r).lift hr) "if"
-    else if n == "unless" then recover cfg (some "endunless") ((parseIf cfg "endunless" d r).lift hr) "unless"
-    else if n == "case" then recover cfg (some "endcase") ((parseCase cfg d r).lift hr) "case"
-    else if n == "for" then recover cfg (some "endfor") ((parseFor cfg d r).lift hr) "for"
-    else if n == "capture" then recover cfg (some "endcapture") ((parseCapture cfg d r).lift hr) "capture"
-    else if n == "liquid" then recover cfg none ((parseLiquid cfg d r).lift hr) "liquid"
+    if n == "if" then recover cfg (some "endif") ((parseIf cfg "endif" d r).lift (wl_le_cons _ _)) "if"
+    else if n == "unless" then recover cfg (some "endunless") ((parseIf cfg "endunless" d r).lift (wl_le_cons _ _)) "unless"
+    else if n == "case" then recover cfg (some "endcase") ((parseCase cfg d r).lift (wl_le_cons _ _)) "case"
+    else if n == "for" then recover cfg (some "endfor") ((parseFor cfg d r).lift (wl_le_cons _ _)) "for"
+    else if n == "capture" then recover cfg (some "endcapture") ((parseCapture cfg d r).lift (wl_le_cons _ _)) "capture"
+    else if n == "liquid" then recover cfg none ((parseLiquid cfg d r).lift (wl_le_cons _ _)) "liquid"
     else if n == "comment" then
       -- `{% comment %}` as a tag: scan to `endcomment`; EOF raises
       recover cfg (some "endcomment")
         (if (skipUntil (Tok.isTag "endcomment") r).isEmpty then ⟨failed .syntax [] d r.length, by simp [failed, wl]⟩
          else ⟨ok [] (skipUntil (Tok.isTag "endcomment") r) d (r.length - (skipUntil (Tok.isTag "endcomment") r).length),
-               Nat.le_trans (skipUntil_le _ _) hr⟩) "comment"
+               Nat.le_trans (skipUntil_le _ _) (wl_le_cons _ _)⟩) "comment"
     else if n == "doc" then
       recover cfg (some "enddoc")
-        (if headIsExpr r then ⟨failed .syntax r d 0, hr⟩                       -- unexpected expression
-         else if (docScan r).1 then ⟨ok [] (docScan r).2 d (r.length - (docScan r).2.length), Nat.le_trans (docScan_le _) hr⟩
-         else ⟨failed .syntax (docScan r).2 d (r.length - (docScan r).2.length), Nat.le_trans (docScan_le _) hr⟩) "doc"
+        (if headIsExpr r then ⟨failed .syntax r d 0, (wl_le_cons _ _)⟩                       -- unexpected expression
+         else if (docScan r).1 then ⟨ok [] (docScan r).2 d (r.length - (docScan r).2.length), Nat.le_trans (docScan_le _) (wl_le_cons _ _)⟩
+         else ⟨failed .syntax (docScan r).2 d (r.length - (docScan r).2.length), Nat.le_trans (docScan_le _) (wl_le_cons _ _)⟩) "doc"
     else if n == "assign" then
-      if headIsExpr r then ⟨ok ["assign"] r d 0, hr⟩                           -- into_inner(eat=False)
-      else recover cfg none ⟨failed .syntax r d 0, hr⟩ "assign"
+      if headIsExpr r then ⟨ok ["assign"] r d 0, (wl_le_cons _ _)⟩                           -- into_inner(eat=False)
+      else recover cfg none ⟨failed .syntax r d 0, (wl_le_cons _ _)⟩ "assign"
     else if n == "break" then ⟨ok ["break"] (.tag n :: r) d 0, Nat.le_refl _⟩
     else
       -- `Illegal.parse`: `if stream.peek.kind == TOKEN_EXPRESSION: next(stream)`; raise
-      if headIsExpr r then recover cfg none ⟨failed .syntax r d 0, hr⟩ "illegal"
+      if headIsExpr r then recover cfg none ⟨failed .syntax r d 0, (wl_le_cons _ _)⟩ "illegal"
       else recover cfg none ⟨failed .syntax (.tag n :: r) d 0, Nat.le_refl _⟩ "illegal"
 termination_by (wl (t :: r), 4)
 decreasing_by parse_dec
@@ -250,15 +251,14 @@ decreasing_by parse_dec
 def parseIf (cfg : Cfg) (endName : String) (d : Nat) (r : List Tok) : Res r :=
   match r with
   | .expr i :: r1 =>                                                        -- into_inner (eats)
-    have h1 : wl r1 ≤ wl (Tok.expr i :: r1) := by simp only [wl_cons]; omega
     match parseBlock cfg [endName, "elsif", "else"] d r1 with
     | ⟨b, hb⟩ =>
       match b.err with
-      | some _ => ⟨b, Nat.le_trans hb h1⟩
+      | some _ => ⟨b, Nat.le_trans hb (wl_le_cons _ _)⟩
       | none =>
         match ifTail cfg endName b.depth b.rest with
         | ⟨a, ha⟩ =>
-          ⟨{ a with out := b.out ++ a.out, iters := b.iters + a.iters }, Nat.le_trans ha (Nat.le_trans hb h1)⟩
+          ⟨{ a with out := b.out ++ a.out, iters := b.iters + a.iters }, Nat.le_trans ha (Nat.le_trans hb (wl_le_cons _ _))⟩
   | rest => ⟨failed .syntax rest d 0, Nat.le_refl _⟩                            -- missing expression
 termination_by (wl r, 3)
 decreasing_by parse_dec
@@ -267,27 +267,25 @@ decreasing_by parse_dec
 def ifTail (cfg : Cfg) (endName : String) (d : Nat) (ts : List Tok) : Res ts :=
   match ts with
   | .tag n :: r =>
-    have hr : wl r ≤ wl (Tok.tag n :: r) := by simp only [wl_cons]; omega
     if n == "elsif" then
       match r with                                                          -- `next(stream)` took the elsif tag
       | .expr i :: r1 =>
-        have h1 : wl r1 ≤ wl (Tok.expr i :: r1) := by simp only [wl_cons]; omega
         match parseBlock cfg [endName, "elsif", "else"] d r1 with
         | ⟨b, hb⟩ =>
           match b.err with
-          | some _ => ⟨{ b with iters := b.iters + 1 }, Nat.le_trans hb (Nat.le_trans h1 hr)⟩
+          | some _ => ⟨{ b with iters := b.iters + 1 }, Nat.le_trans hb (Nat.le_trans (wl_le_cons _ _) (wl_le_cons _ _))⟩
           | none =>
             match ifTail cfg endName b.depth b.rest with
             | ⟨a, ha⟩ =>
               ⟨{ a with out := b.out ++ a.out, iters := b.iters + 1 + a.iters },
-               Nat.le_trans ha (Nat.le_trans hb (Nat.le_trans h1 hr))⟩
+               Nat.le_trans ha (Nat.le_trans hb (Nat.le_trans (wl_le_cons _ _) (wl_le_cons _ _)))⟩
       | rest =>
         -- missing expression: `except LiquidSyntaxError: env.error(err); eat_block(stream, ENDELSIFBLOCK); return IllegalNode`
-        if !cfg.lax then ⟨failed .syntax rest d 1, hr⟩
+        if !cfg.lax then ⟨failed .syntax rest d 1, (wl_le_cons _ _)⟩
         else
           ⟨{ out := [], rest := eatBlock [endName, "elsif", "else"] rest, depth := d,
              iters := 1 + (rest.length - (eatBlock [endName, "elsif", "else"] rest).length), err := none, repl := true },
-           Nat.le_trans (skipUntil_le _ _) hr⟩
+           Nat.le_trans (skipUntil_le _ _) (wl_le_cons _ _)⟩
     else ifElse cfg endName d (.tag n :: r)
   | ts => ifElse cfg endName d ts
 termination_by (wl ts, 2)
@@ -297,23 +295,21 @@ decreasing_by parse_dec
 def ifElse (cfg : Cfg) (endName : String) (d : Nat) (ts : List Tok) : Res ts :=
   match ts with
   | .tag n :: r =>
-    have hr : wl r ≤ wl (Tok.tag n :: r) := by simp only [wl_cons]; omega
     if n == "else" then
       -- `next(stream)`; a superfluous expression is skipped (the tag's own mode is LAX)
       match r with
       | .expr i :: r1 =>
-        have h1 : wl r1 ≤ wl (Tok.expr i :: r1) := by simp only [wl_cons]; omega
         match parseBlock cfg [endName, "else", "elsif"] d r1 with
         | ⟨b, hb⟩ =>
           match b.err with
-          | some _ => ⟨b, Nat.le_trans hb (Nat.le_trans h1 hr)⟩
-          | none => (ifEnd endName b.depth b.out b.iters b.rest).lift (Nat.le_trans hb (Nat.le_trans h1 hr))
+          | some _ => ⟨b, Nat.le_trans hb (Nat.le_trans (wl_le_cons _ _) (wl_le_cons _ _))⟩
+          | none => (ifEnd endName b.depth b.out b.iters b.rest).lift (Nat.le_trans hb (Nat.le_trans (wl_le_cons _ _) (wl_le_cons _ _)))
       | r =>
         match parseBlock cfg [endName, "else", "elsif"] d r with
         | ⟨b, hb⟩ =>
           match b.err with
-          | some _ => ⟨b, Nat.le_trans hb hr⟩
-          | none => (ifEnd endName b.depth b.out b.iters b.rest).lift (Nat.le_trans hb hr)
+          | some _ => ⟨b, Nat.le_trans hb (wl_le_cons _ _)⟩
+          | none => (ifEnd endName b.depth b.out b.iters b.rest).lift (Nat.le_trans hb (wl_le_cons _ _))
     else ifEnd endName d [] 0 (.tag n :: r)
   | ts => ifEnd endName d [] 0 ts
 termination_by (wl ts, 1)
@@ -323,12 +319,11 @@ decreasing_by parse_dec
 def parseCase (cfg : Cfg) (d : Nat) (r : List Tok) : Res r :=
   match r with
   | .expr i :: r1 =>
-    have h1 : wl r1 ≤ wl (Tok.expr i :: r1) := by simp only [wl_cons]; omega
     -- "Eat whitespace or junk between `case` and when/else/endcase"
     match caseLoop cfg d (skipUntil Tok.anyTag r1) with
     | ⟨a, ha⟩ =>
       ⟨{ a with iters := a.iters + (r1.length - (skipUntil Tok.anyTag r1).length) },
-       Nat.le_trans ha (Nat.le_trans (skipUntil_le _ _) h1)⟩
+       Nat.le_trans ha (Nat.le_trans (skipUntil_le _ _) (wl_le_cons _ _))⟩
   | rest => ⟨failed .syntax rest d 0, Nat.le_refl _⟩
 termination_by (wl r, 3)
 decreasing_by parse_dec
@@ -337,32 +332,30 @@ decreasing_by parse_dec
 def caseLoop (cfg : Cfg) (d : Nat) (ts : List Tok) : Res ts :=
   match ts with
   | .tag n :: r =>
-    have hr : wl r ≤ wl (Tok.tag n :: r) := by simp only [wl_cons]; omega
     if n == "endcase" then ⟨ok [] (.tag n :: r) d 0, Nat.le_refl _⟩
     else if n == "else" then
       match parseBlock cfg ["endcase", "when", "else"] d r with
       | ⟨b, hb⟩ =>
         match b.err with
-        | some _ => ⟨{ b with iters := b.iters + 1 }, Nat.le_trans hb hr⟩
+        | some _ => ⟨{ b with iters := b.iters + 1 }, Nat.le_trans hb (wl_le_cons _ _)⟩
         | none =>
           match caseLoop cfg b.depth b.rest with
-          | ⟨a, ha⟩ => ⟨{ a with out := b.out ++ a.out, iters := b.iters + 1 + a.iters }, Nat.le_trans ha (Nat.le_trans hb hr)⟩
+          | ⟨a, ha⟩ => ⟨{ a with out := b.out ++ a.out, iters := b.iters + 1 + a.iters }, Nat.le_trans ha (Nat.le_trans hb (wl_le_cons _ _))⟩
     else if n == "when" then
       match r with
       | .expr i :: r1 =>
-        have h1 : wl r1 ≤ wl (Tok.expr i :: r1) := by simp only [wl_cons]; omega
         match parseBlock cfg ["endcase", "when", "else"] d r1 with
         | ⟨b, hb⟩ =>
           match b.err with
-          | some _ => ⟨{ b with iters := b.iters + 1 }, Nat.le_trans hb (Nat.le_trans h1 hr)⟩
+          | some _ => ⟨{ b with iters := b.iters + 1 }, Nat.le_trans hb (Nat.le_trans (wl_le_cons _ _) (wl_le_cons _ _))⟩
           | none =>
             match caseLoop cfg b.depth b.rest with
             | ⟨a, ha⟩ =>
               ⟨{ a with out := b.out ++ a.out, iters := b.iters + 1 + a.iters },
-               Nat.le_trans ha (Nat.le_trans hb (Nat.le_trans h1 hr))⟩
-      | rest => ⟨failed .syntax rest d 1, hr⟩                             -- `when` without an expression
-    else ⟨failed .syntax (.tag n :: r) d 1, Nat.le_refl _⟩                -- unexpected tag
-  | ts => ⟨failed .syntax ts d 1, Nat.le_refl _⟩                          -- EOF (the 2.2.1 hang) or a stray token
+               Nat.le_trans ha (Nat.le_trans hb (Nat.le_trans (wl_le_cons _ _) (wl_le_cons _ _)))⟩
+      | rest => ⟨failed .syntax rest d 1, (wl_le_cons _ _)⟩                             -- `when` without an expression
+    else ⟨failed .syntax (.tag n :: r) d 0, Nat.le_refl _⟩                -- unexpected tag
+  | ts => ⟨failed .syntax ts d 0, Nat.le_refl _⟩                          -- EOF (the 2.2.1 hang) or a stray token
 termination_by (wl ts, 2)
 decreasing_by parse_dec
 
@@ -370,30 +363,28 @@ decreasing_by parse_dec
 def parseFor (cfg : Cfg) (d : Nat) (r : List Tok) : Res r :=
   match r with
   | .expr i :: r1 =>
-    have h1 : wl r1 ≤ wl (Tok.expr i :: r1) := by simp only [wl_cons]; omega
     match parseBlock cfg ["endfor", "else"] d r1 with
     | ⟨b, hb⟩ =>
       match b.err with
-      | some _ => ⟨b, Nat.le_trans hb h1⟩
+      | some _ => ⟨b, Nat.le_trans hb (wl_le_cons _ _)⟩
       | none =>
         match b.rest, hb with
         | .tag n :: r2, hb =>
-          have h2 : wl r2 ≤ wl (Tok.tag n :: r2) := by simp only [wl_cons]; omega
           if n == "else" then
             match parseBlock cfg ["endfor"] b.depth r2 with
             | ⟨b2, hb2⟩ =>
               match b2.err with
-              | some _ => ⟨{ b2 with iters := b.iters + b2.iters }, Nat.le_trans hb2 (Nat.le_trans h2 (Nat.le_trans hb h1))⟩
+              | some _ => ⟨{ b2 with iters := b.iters + b2.iters }, Nat.le_trans hb2 (Nat.le_trans (wl_le_cons _ _) (Nat.le_trans hb (wl_le_cons _ _)))⟩
               | none =>
                 match b2.rest, hb2 with
                 | .tag m :: r3, hb2 =>
                   if m == "endfor" then
-                    ⟨ok (b.out ++ b2.out) (.tag m :: r3) b2.depth (b.iters + b2.iters), Nat.le_trans hb2 (Nat.le_trans h2 (Nat.le_trans hb h1))⟩
-                  else ⟨failed .syntax (.tag m :: r3) b2.depth (b.iters + b2.iters), Nat.le_trans hb2 (Nat.le_trans h2 (Nat.le_trans hb h1))⟩
-                | rest, hb2 => ⟨failed .syntax rest b2.depth (b.iters + b2.iters), Nat.le_trans hb2 (Nat.le_trans h2 (Nat.le_trans hb h1))⟩
-          else if n == "endfor" then ⟨ok b.out (.tag n :: r2) b.depth b.iters, Nat.le_trans hb h1⟩
-          else ⟨failed .syntax (.tag n :: r2) b.depth b.iters, Nat.le_trans hb h1⟩
-        | rest, hb => ⟨failed .syntax rest b.depth b.iters, Nat.le_trans hb h1⟩
+                    ⟨ok (b.out ++ b2.out) (.tag m :: r3) b2.depth (b.iters + b2.iters), Nat.le_trans hb2 (Nat.le_trans (wl_le_cons _ _) (Nat.le_trans hb (wl_le_cons _ _)))⟩
+                  else ⟨failed .syntax (.tag m :: r3) b2.depth (b.iters + b2.iters), Nat.le_trans hb2 (Nat.le_trans (wl_le_cons _ _) (Nat.le_trans hb (wl_le_cons _ _)))⟩
+                | rest, hb2 => ⟨failed .syntax rest b2.depth (b.iters + b2.iters), Nat.le_trans hb2 (Nat.le_trans (wl_le_cons _ _) (Nat.le_trans hb (wl_le_cons _ _)))⟩
+          else if n == "endfor" then ⟨ok b.out (.tag n :: r2) b.depth b.iters, Nat.le_trans hb (wl_le_cons _ _)⟩
+          else ⟨failed .syntax (.tag n :: r2) b.depth b.iters, Nat.le_trans hb (wl_le_cons _ _)⟩
+        | rest, hb => ⟨failed .syntax rest b.depth b.iters, Nat.le_trans hb (wl_le_cons _ _)⟩
   | rest => ⟨failed .syntax rest d 0, Nat.le_refl _⟩
 termination_by (wl r, 3)
 decreasing_by parse_dec
@@ -402,17 +393,16 @@ decreasing_by parse_dec
 def parseCapture (cfg : Cfg) (d : Nat) (r : List Tok) : Res r :=
   match r with
   | .expr i :: r1 =>
-    have h1 : wl r1 ≤ wl (Tok.expr i :: r1) := by simp only [wl_cons]; omega
     match parseBlock cfg ["endcapture"] d r1 with
     | ⟨b, hb⟩ =>
       match b.err with
-      | some _ => ⟨b, Nat.le_trans hb h1⟩
+      | some _ => ⟨b, Nat.le_trans hb (wl_le_cons _ _)⟩
       | none =>
         match b.rest, hb with
         | .tag n :: r2, hb =>
-          if n == "endcapture" then ⟨ok b.out (.tag n :: r2) b.depth b.iters, Nat.le_trans hb h1⟩
-          else ⟨failed .syntax (.tag n :: r2) b.depth b.iters, Nat.le_trans hb h1⟩
-        | rest, hb => ⟨failed .syntax rest b.depth b.iters, Nat.le_trans hb h1⟩
+          if n == "endcapture" then ⟨ok b.out (.tag n :: r2) b.depth b.iters, Nat.le_trans hb (wl_le_cons _ _)⟩
+          else ⟨failed .syntax (.tag n :: r2) b.depth b.iters, Nat.le_trans hb (wl_le_cons _ _)⟩
+        | rest, hb => ⟨failed .syntax rest b.depth b.iters, Nat.le_trans hb (wl_le_cons _ _)⟩
   | rest => ⟨failed .syntax rest d 0, Nat.le_refl _⟩
 termination_by (wl r, 3)
 decreasing_by parse_dec
